@@ -220,6 +220,59 @@ def check_multi(rec, mod, g):
                 rec.violation("C13|multi|invalid_fields", case, f"invalid fields {got}, expected exactly {exp}")
 
 
+HIER = '''
+@dataclass(frozen=True)
+class {b}(ASTNode):
+    a: int = 0
+
+@dataclass(frozen=True)
+class {d}({b}):
+    g: str = ""
+    kid: Optional[N1] = None
+
+@dataclass(frozen=True)
+class {e}({d}):
+    a: str = "re-annotated"
+    h: tuple[int, ...] = ()
+'''
+
+
+def check_hierarchy(rec, mod, g):
+    """Checked fields of a class hierarchy must not depend on which class was constructed (with checks on) first."""
+    n1 = g["N1"](1)
+    for first in ("base", "derived", "leaf", "bare-ASTNode"):
+        b, d, e = (f"YH{next(_counter)}" for _ in range(3))
+        exec(compile(HIER.format(b=b, d=d, e=e), f"<c13:{b}>", "exec", dont_inherit=True), mod.__dict__)
+        B, D, E = g[b], g[d], g[e]
+        config.RUNTIME_TYPE_CHECK = True
+        try:
+            NODE_REGISTRY.clear()
+            {"base": lambda: B(1), "derived": lambda: D(1, "x", n1), "leaf": lambda: E("s", "x", None, (1,)), "bare-ASTNode": lambda: g["ASTNode"]()}[first]()
+            cases = [
+                (B, dict(a=1), []), (B, dict(a="x"), ["a"]),
+                (D, dict(a=1, g="x", kid=n1), []), (D, dict(a=1, g=5), ["g"]), (D, dict(a=True, g="x", kid=3), ["a", "kid"]),
+                (E, dict(a="s", g="x", h=(1, 2)), []), (E, dict(a=1, g="x"), ["a"]), (E, dict(a="s", g=None, h=("x",)), ["g", "h"]),
+            ]
+            for cls, kw, exp in cases:
+                rec.count("transitions"); rec.count("traces"); rec.count("evaluations")
+                case = {"hierarchy": True, "first_constructed": first, "class": {B: "Base", D: "Derived", E: "Leaf"}[cls], "values": {k: vrepr(v) for k, v in kw.items()}}
+                NODE_REGISTRY.clear()
+                try:
+                    cls(**kw)
+                    got = []
+                except InvalidTypes as ex:
+                    got = sorted(f.name for f in ex.invalid_fields)
+                except Exception as ex:  # noqa: BLE001
+                    got = [f"<{type(ex).__name__}>"]
+                if got != exp:
+                    rec.violation("C13|hierarchy|invalid_fields", case, f"first constructed: {first}; invalid fields {got}, expected exactly {exp}")
+                rec.outcome(f"hierarchy:{'accept' if not exp else 'reject'}")
+        finally:
+            config.RUNTIME_TYPE_CHECK = False
+        for c in (B, D, E):
+            forget(c)
+
+
 def plan(tier, seed):
     return [{"k": i, "of": NSHARDS, "tier": tier} for i in range(NSHARDS)]
 
@@ -232,6 +285,8 @@ def run_shard(cfg):
     env = {"N1": g["N1"], "N2": g["N2"], "E": g["E"]}
     if cfg["k"] == 0:
         check_multi(rec, mod, g)
+    if cfg["k"] == 1 % cfg["of"]:
+        check_hierarchy(rec, mod, g)
     for idx, t in enumerate(accepted_terms(cfg["tier"])):
         if idx % cfg["of"] != cfg["k"]:
             continue
@@ -246,7 +301,9 @@ def replay(case, cfg):
     mod = make_module()
     g = mod.__dict__
     env = {"N1": g["N1"], "N2": g["N2"], "E": g["E"]}
-    if case.get("multi"):
+    if case.get("hierarchy"):
+        check_hierarchy(rec, mod, g)
+    elif case.get("multi"):
         check_multi(rec, mod, g)
     else:
         check_term(rec, mod, case["term"], pool(g), env)
